@@ -442,7 +442,8 @@ fn non_exhaustive(m: &Model, ctx: &mut Ctx, ev: &Evaluator) {
         model::deep_walk_block(&f.block, &mut c);
         ctx.oblige("C05.nonexh", "header-clause", true);
         let b = tok(&f.block);
-        if c.out.len() != 1 || !b.contains("opt(tag(EXTENSIBILITY_IMPLIED))") {
+        // the keyword parser may be `tag` or the crate's word-sequence parser
+        if c.out.len() != 1 || !(b.contains("opt(tag(EXTENSIBILITY_IMPLIED))") || b.contains("opt(keywords(EXTENSIBILITY_IMPLIED))")) {
             ctx.violate("C05.nonexh", "header-clause", &f.file, f.line, "environments(): expected one closure mapping opt(tag(EXTENSIBILITY_IMPLIED)) to an ExtensibilityEnvironment");
         } else {
             for (val, want) in [(Val::some(sym("kw")), "Implied"), (Val::none(), "Explicit")] {
